@@ -4,12 +4,13 @@ import (
 	"fmt"
 
 	"github.com/olric-data/olric/internal/verif/clustermc"
+	"github.com/olric-data/olric/internal/verif/confx"
 	"github.com/olric-data/olric/internal/verif/core"
 	"github.com/olric-data/olric/internal/verif/kvops"
 	"github.com/olric-data/olric/internal/verif/simcluster"
 )
 
-func c04Specs(tier string) []*clustermc.Spec {
+func c04Params(tier string) []*kvops.Params {
 	quick := tier != "thorough"
 	alpha := []clustermc.Ev{
 		ev("put", 0, 0, ""), ev("put", 0, 0, "NX"), ev("put", 0, 0, "XX"), ev("put", 0, 0, "PX"), ev("put", 0, 0, "EX"),
@@ -29,13 +30,21 @@ func c04Specs(tier string) []*clustermc.Spec {
 		alpha = append(alpha, ev("put", 0, 0, "EXAT"), ev("put", 0, 0, "XX+EX"), ev("unlock", 0, 1, ""), ev("compact", 0, 0, ""), ev("janitor", 0, 0, ""))
 		cfs = append(cfs, cf{3, 3, 1 << 16, "EO"}, cf{3, 3, 1 << 16, "CC"}, cf{3, 2, 200, "EO"}, cf{3, 2, 1 << 16, "RN"})
 	}
-	var out []*clustermc.Spec
+	var out []*kvops.Params
 	for _, c := range cfs {
 		p := &kvops.Params{
 			Name:  fmt.Sprintf("N=%d R=%d table=%d entry=%s", c.n, c.r, c.table, c.entry),
 			Opts:  simcluster.Opts{N: c.n, Replicas: c.r, WriteQ: 1, ReadQ: 1, Partitions: 7, TableSize: c.table},
 			Entry: c.entry, DMap: "d", Keys: []string{"k"}, Alpha: alpha, Depth: depth, Mirror: true,
 		}
+		out = append(out, p)
+	}
+	return out
+}
+
+func c04Specs(tier string) []*clustermc.Spec {
+	var out []*clustermc.Spec
+	for _, p := range c04Params(tier) {
 		out = append(out, kvops.Spec(p))
 	}
 	return out
@@ -46,7 +55,19 @@ func init() {
 	core.Register(&core.Check{ID: "C04", Level: "model_checking", Run: func(c *core.Ctx) {
 		c.Cov["rule"] = "BFS over sequences of every mutating operation (Put with option forms, Expire, GetPut, Incr, Decr, IncrByFloat, Delete, Lock with/without timeout, Unlock, Lease, clock ticks, eviction pass) on one key through one entry point, replica count 2-3; after every acknowledged step the decoded copy on every listed backup owner is compared (value, expiry, timestamp, presence) with the primary copy; non-trivial = distinct states in which the key exists"
 		clustermc.RunFamily(c, "C04")
-		c.Cov["traces_validated_against_impl"] = 0
+		// the client-visible half of every explored step sequence is replayed on the real stack
+		// (the white-box backup comparison itself has no public-API counterpart)
+		var traces []confx.Trace
+		perSpec := 200
+		if !c.Quick() {
+			perSpec = 1200
+		}
+		for _, p := range c04Params(c.Tier) {
+			if (p.Entry == "EO" || p.Entry == "EN" || p.Entry == "CC") && p.Opts.TableSize > 1024 {
+				traces = append(traces, kvops.ConformTraces(p, 3, perSpec)...)
+			}
+		}
+		confx.Replay(c, traces)
 		c.Assumef("white-box copies are decoded from the raw table memory of every member through verif accessors")
 	}})
 }
